@@ -71,11 +71,16 @@ def removeGo (x xm : Int) : List Excl → List Excl
     | 2 => if i.x ≠ x then { i with xm := x } :: removeGo x xm rest else removeGo x xm rest
     | _ => removeGo x xm rest
 
-/-- `Zones::remove(x, xm)` = `exclude` -/
-def Zones.remove (z : Zones) (x xm : Int) : Zones :=
+/-- `Zones::remove(x, xm)` after the test for a range of no width: clamping and the loop -/
+def Zones.removeCore (z : Zones) (x xm : Int) : Zones :=
   let x := max x z.pos
   let xm := min xm z.posm
   if x ≥ xm then z else { z with excl := removeGo x xm z.excl }
+
+/-- `Zones::remove(x, xm)` = `exclude`: a range of no width first (`if (_pos >= _posm)`: the single point goes when it lies strictly
+inside what is removed), then the clamping and the loop -/
+def Zones.remove (z : Zones) (x xm : Int) : Zones :=
+  if z.pos ≥ z.posm then (if x < z.pos ∧ xm > z.posm then { z with excl := [] } else z) else z.removeCore x xm
 
 /-- `Exclusion::weighted<XY>` / `<SD>` -/
 def weightedXY (xmin xmax : Int) (f a0 m xi c : Rat) : Excl :=
